@@ -40,11 +40,49 @@ class BoundedResult:
         """Evaluate one case; thunk() returns (ok, detail).  An exception raised by the code under
         test inside the case is a failure of that case (with the traceback tail as detail)."""
         try:
-            ok, detail = thunk()
+            with _deadline(CASE_SECONDS):
+                ok, detail = thunk()
+        except _CaseTimeout:
+            # (the code under test did not come back: reported as a failed case - every property here is about calls
+            # that return or raise; the budget is hundreds of times what a case takes)
+            ok, detail = False, {"no_result_within_seconds": CASE_SECONDS}
         except Exception as e:
             ok, detail = False, {"exception": f"{type(e).__name__}: {e}",
                                  "where": traceback.format_exc(limit=3).strip().splitlines()[-3:]}
         self.case(key, ok, detail, nontrivial=nontrivial, sample=sample)
+
+
+CASE_SECONDS = int(os.environ.get("VERIF_CASE_SECONDS", "300"))
+
+
+class _CaseTimeout(BaseException):
+    pass
+
+
+class _deadline:
+    """a wall-clock limit for one bounded case (main thread, SIGALRM; without it where signals are unavailable)"""
+
+    def __init__(self, seconds):
+        self.seconds = seconds
+        self.active = False
+
+    def __enter__(self):
+        import signal
+        import threading
+        if threading.current_thread() is threading.main_thread() and hasattr(signal, "SIGALRM"):
+            def on_alarm(signum, frame):
+                raise _CaseTimeout()
+            self.old = signal.signal(signal.SIGALRM, on_alarm)
+            signal.alarm(self.seconds)
+            self.active = True
+        return self
+
+    def __exit__(self, *exc):
+        if self.active:
+            import signal
+            signal.alarm(0)
+            signal.signal(signal.SIGALRM, self.old)
+        return False
 
 
 class GroundResult:
